@@ -124,6 +124,29 @@ impl<'a> Minimiser<'a> {
                     progress = true;
                 }
             }
+            // 1b. drop pre-existing output files, reset clock skew
+            let mut pi = cur.preseed.len();
+            while pi > 0 {
+                pi -= 1;
+                let mut c = cur.clone();
+                c.preseed.remove(pi);
+                if let Some((_, v)) = self.fails(&c) {
+                    cur = c;
+                    curv = v;
+                    progress = true;
+                }
+            }
+            for oi in 0..cur.ops.len() {
+                if cur.ops[oi].src_age != 0 {
+                    let mut c = cur.clone();
+                    c.ops[oi].src_age = 0;
+                    if let Some((_, v)) = self.fails(&c) {
+                        cur = c;
+                        curv = v;
+                        progress = true;
+                    }
+                }
+            }
             // 2. drop faults
             for oi in 0..cur.ops.len() {
                 let mut fi = cur.ops[oi].faults.len();
@@ -298,7 +321,8 @@ impl<'a> Minimiser<'a> {
                 o.version = *n;
             }
         }
-        if !c.versions.is_empty() {
+        // (C08 keeps its convention that versions[0] is the tree without the construct)
+        if !c.versions.is_empty() && cur.property != "C08" {
             if let Some((_, v)) = self.fails(&c) {
                 cur = c;
                 curv = v;
